@@ -213,7 +213,20 @@ struct HandsOut {
     bad_range: Option<u64>,
 }
 
+static WATCH: std::sync::OnceLock<Watch> = std::sync::OnceLock::new();
+
 fn run_hands(k: usize, mask: u64, keep: bool) -> Option<HandsOut> {
+    if let Some(w) = WATCH.get() {
+        w.enter(&format!("hands {} {k} {mask} (HandIterator::from(({k}, Hand::from({mask:#x}))) consumed to the end)", deck_name()));
+    }
+    let r = run_hands_inner(k, mask, keep);
+    if let Some(w) = WATCH.get() {
+        w.leave();
+    }
+    r
+}
+
+fn run_hands_inner(k: usize, mask: u64, keep: bool) -> Option<HandsOut> {
     catch(move || {
         let mut o = HandsOut { count: 0, ck: 0, list: vec![], sorted: true, bad_size: None, bad_mask: None, bad_range: None };
         let blocked = (mask & full_deck()) | !full_deck();
@@ -467,6 +480,7 @@ fn main() {
     let mut rng = Rng::new(a.seed);
     let mut run = Run::new(&a.out);
     quiet_panics();
+    let _ = WATCH.set(Watch::start(&a.out, if a.thorough() { 1800 } else { 120 }));
     let deck = deck_name();
     let full = full_deck();
     let all52: u64 = (1u64 << 52) - 1;
